@@ -88,6 +88,8 @@ func main() {
 		}
 		b, _ := json.MarshalIndent(out, "", " ")
 		os.WriteFile(*dumpAnchors, append(b, '\n'), 0o644)
+		fb, _ := json.MarshalIndent(p.StructPrints(), "", " ")
+		os.WriteFile(strings.TrimSuffix(*dumpAnchors, "anchors.json")+"fields.json", append(fb, '\n'), 0o644)
 		fmt.Printf("%d unexported anchors fingerprinted\n", len(out))
 		return
 	}
@@ -139,6 +141,12 @@ func main() {
 			fail("anchors.json unreadable: " + err.Error())
 		}
 		p.ResolveAnchors()
+		if fb, err := os.ReadFile(filepath.Join(*verif, "fields.json")); err == nil {
+			if err := json.Unmarshal(fb, &p.Structs); err != nil {
+				fail("fields.json unreadable: " + err.Error())
+			}
+			p.ResolveFields()
+		}
 	}
 	known, err := core.LoadKnown(filepath.Join(*verif, "known_findings.json"))
 	if err != nil {
@@ -170,6 +178,8 @@ func main() {
 			}
 			p2.Anchors = p.Anchors
 			p2.ResolveAnchors()
+			p2.Structs = p.Structs
+			p2.ResolveFields()
 			c2 := core.NewCtx(p2, *prop, *tier)
 			run(c2)
 			added := 0
